@@ -112,7 +112,18 @@ func build(fields []modbus.Field, fc uint8, f spec.Framing, fluent bool) ([]modb
 			// a builder with defaults of its own: complete definitions handed to AddAll (unit id 0 and all) are not subject to them
 			b = modbus.NewRequestBuilder("default-target:502", 7)
 		}
-		b.AddAll(fields)
+		// the slice handed to AddAll stays the caller's: it has spare capacity and is overwritten and appended to afterwards
+		in := make([]modbus.Field, len(fields), len(fields)+4)
+		copy(in, fields)
+		b.AddAll(in)
+		if len(fields)%5 >= 3 {
+			bogus := modbus.Field{Name: "not-added", ServerAddress: "bogus:1", UnitID: 99, Address: 4242, Type: modbus.FieldTypeUint64}
+			for i := range in {
+				in[i] = bogus
+			}
+			in = append(in, bogus, bogus)
+			_ = in
+		}
 	}
 	if len(fields)%2 == 1 {
 		// the same builder may serve several request kinds: ask it for coil requests (and the other register function) first
